@@ -61,7 +61,7 @@ def renamable(fn) -> Set[str]:
             blocked.add(n.name)
         elif isinstance(n, ast.MatchStar) and n.name:
             blocked.add(n.name)
-    return {s for s in stores - blocked if not s.startswith("__")}
+    return {s for s in stores - blocked if not s.startswith("__") and s.strip("_")}
 
 
 def alpha_rename(src: str, suffix: str = "_rn") -> Tuple[str, int]:
